@@ -329,15 +329,40 @@ ExpAttr(a, cf, F, u) ==
     [at |-> AtCode[a.at], ro |-> JOpt(ro), lo |-> JOpt(lo),
      rr |-> IF ro.ok /\ ro.some THEN JRun(RangesAt(ro.v, cf, F, u), JRes) ELSE [open |-> FALSE, items |-> <<>>],
      lr |-> IF lo.ok /\ lo.some THEN JRun(LocationsAt(lo.v, cf, F, u), JRes) ELSE [open |-> FALSE, items |-> <<>>]]
+ExpWith(attrs, cf, F, u) ==
+    [unit  |-> [t |-> "ok", low_pc |-> Cv(u.low_pc), addr_base |-> Cv(u.addr_base),
+                rnglists_base |-> Cv(u.rnglists_base), loclists_base |-> Cv(u.loclists_base)],
+     attrs |-> [i \in DOMAIN attrs |-> ExpAttr(attrs[i], cf, F, u)],
+     die   |-> JDie(DieRanges(attrs, cf, F, u)),
+     raw0  |-> Cv(RangesOffsetFromRaw(N8(5), cf, u))]
 ExpD(attrs, cf, F) ==
     LET un == UnitNew(attrs, cf, F) IN
+    IF ~un.ok THEN [unit |-> [t |-> "err", err |-> un.err]] ELSE ExpWith(attrs, cf, F, un.u)
+
+(* Split units (dwo states only): the file of the skeleton unit has its own  *)
+(* .debug_addr (every address one higher, so that its use shows) and the     *)
+(* .debug_ranges; the skeleton's root DIE carries low_pc, an address base    *)
+(* and a NON-default ranges base (DW_AT_rnglists_base in v5, which must not  *)
+(* reach the split unit; DW_AT_GNU_ranges_base before, which must) and a     *)
+(* loclists base (never copied).  Script: make_dwo(parent); Unit::new(dwo    *)
+(* unit); copy_relocated_attributes(skeleton unit); then the same queries.   *)
+PAddr == <<238, 238, 17, 33, 254, 65>>
+SkelAttrs(cf) ==
+    IF cf.ver >= 5 THEN
+        <<At("low_pc", "addr", N8(33)), At("addr_base", "sec_offset", N8(2)),
+          At("rnglists_base", "sec_offset", N8(HeaderSize(cf) + (IF cf.fmt = 64 THEN 8 ELSE 4))),
+          At("loclists_base", "sec_offset", N8(HeaderSize(cf) + (IF cf.fmt = 64 THEN 8 ELSE 4)))>>
+    ELSE
+        <<At("low_pc", "addr", N8(33)), At("GNU_addr_base", "sec_offset", N8(2)), At("GNU_ranges_base", "sec_offset", N8(3))>>
+ExpSplit(attrs, cf, F) ==
+    LET PF == [F EXCEPT !.addr = PAddr]
+        mcf == [cf EXCEPT !.dwo = FALSE]
+        sk == UnitNew(SkelAttrs(cf), mcf, PF)          \* the skeleton is a unit of the main file
+        F2 == MakeDwo(F, PF)
+        un == UnitNew(attrs, cf, F2) IN
     IF ~un.ok THEN [unit |-> [t |-> "err", err |-> un.err]]
-    ELSE LET u == un.u IN
-         [unit  |-> [t |-> "ok", low_pc |-> Cv(u.low_pc), addr_base |-> Cv(u.addr_base),
-                     rnglists_base |-> Cv(u.rnglists_base), loclists_base |-> Cv(u.loclists_base)],
-          attrs |-> [i \in DOMAIN attrs |-> ExpAttr(attrs[i], cf, F, u)],
-          die   |-> JDie(DieRanges(attrs, cf, F, u)),
-          raw0  |-> Cv(RangesOffsetFromRaw(N8(5), cf, u))]
+    ELSE ExpWith(attrs, cf, F2, CopyRelocated(un.u, sk.u, cf))
+
 InvD ==
     c.stage = 2 =>
     LET cf == DCf(c.vc, c.fmt, c.dwo)
@@ -353,6 +378,12 @@ InvD ==
           d.t = "list" => AllYieldsOk(d.items, cf))
     /\ PrintT(<<"CASE", ToJson([sys |-> "die", cf |-> cf,
                                 info |-> [i \in DOMAIN vseq |-> [ver |-> vseq[i], bytes |-> EncUnit(c.attrs, [cf EXCEPT !.ver = vseq[i]])]],
-                                abbrev |-> EncAbbrev(c.attrs), fk |-> <<c.vc, c.fmt, c.dwo>>, n |-> Len(c.attrs), exp |-> e])>>)
+                                abbrev |-> EncAbbrev(c.attrs), fk |-> <<c.vc, c.fmt, c.dwo>>, n |-> Len(c.attrs), exp |-> e,
+                                split |-> IF c.dwo
+                                          THEN <<[pinfo |-> [i \in DOMAIN vseq |-> [ver |-> vseq[i],
+                                                               bytes |-> EncUnitT(SkelAttrs(cf), [cf EXCEPT !.ver = vseq[i], !.dwo = FALSE], 4)]],
+                                                  pabbrev |-> EncAbbrev(SkelAttrs(cf)), paddr |-> PAddr,
+                                                  exp |-> ExpSplit(c.attrs, cf, F)]>>
+                                          ELSE <<>>])>>)
     /\ (Len(c.attrs) = 0 => PrintT(<<"CASE", ToJson([sys |-> "file", fk |-> <<c.vc, c.fmt, c.dwo>>, file |-> F])>>))
 =============================================================================
